@@ -18,9 +18,16 @@
   * the calendar law both date theorems rest on is itself proved (`calendar_law`);
   * `LeafLaws` and `PassLaws` for `pyLeaves` on S1 = {int, bool, float, str, date, datetime, time,
     timedelta}, so that C01's `roundtrip` and C13's `passthroughG` apply to annotations over these
-    scalars (`roundtrip_temporal`, `passthrough_temporal`).
+    scalars (`roundtrip_temporal`, `passthrough_temporal`);
+  * the remaining scalar kinds (Lemmas/ScalarText.lean): `uuid_text_roundtrip` (hex text of every 128-bit
+    value), `fraction_text_roundtrip` (every fraction in lowest terms); `PassLaws` on S2 = every kind but
+    bytes (`passLaws_S2`, `passthrough_all`: no side condition), the leaf round trip on S2r = S2 minus
+    uuid for canonically spelled values `hasScalarC` (`leaf_roundtrip_all`, `roundtrip_all`), the
+    refutation without the spelling condition (`roundtrip_all_false_without_canon`), and why uuid and
+    bytes are out (`uuid_out`: the modelled `strload?` is undefined on UUID text).
 -/
 import TypelibModel.Lemmas.TemporalText
+import TypelibModel.Lemmas.ScalarText
 import TypelibModel.Lemmas.EnumRT
 import TypelibModel.Props.C01
 import TypelibModel.Props.C13
@@ -230,5 +237,118 @@ example : hasType [] 3 (.coll .list (.scalar .datetime)) (.list [.datetime (-621
 example : wfTy S1 [] (.dict (.scalar .str) (.coll .vartuple (.scalar .timedelta))) = true := by decide
 example : hasType [] 3 (.dict (.scalar .str) (.coll .vartuple (.scalar .timedelta)))
     (.dict [(.str "k".toList, .tuple [.timedelta (-1), .timedelta 0])]) = true := by decide
+
+/-! ### The remaining scalar kinds: Decimal, Fraction, UUID, path, pattern (S2) -/
+
+/-- `UUID(str(u)) == u`: the 8-4-4-4-12 hex reader inverts the writer for every `n < 2^128`. -/
+theorem uuid_text_roundtrip {n : Nat} (h : n < uuidMax) : uuidParse? (uuidStr n) = some n := uuid_text_rt h
+
+/-- `Fraction(str(q)) == q` for every fraction in lowest terms, any size. -/
+theorem fraction_text_roundtrip (n : Int) (d : Nat) (hd : d ≠ 0) (hg : Nat.gcd n.natAbs d = 1) :
+    fracOfStr (fracText n d) = .ok (.frac n d) := frac_text_rt n d hd hg
+
+/-- `LeafLaws.rt` on S2r = S1 ∪ {decimal, fraction, path, pattern} for canonically spelled values
+    (`hasScalarC` = `hasScalar` ∧ `canonScalar`: Decimal text positional, Fraction in lowest terms,
+    path text normalised and inside the modelled `strload`, pattern literal; no condition on S1). -/
+theorem leaf_roundtrip_all (env : Env) (today : Int) : ∀ s v, S2r s = true → hasScalarC s v = true →
+    ∃ m, (pyLeaves env today).mar s v = .ok m ∧ (pyLeaves env today).um s m = .ok v
+      ∧ hashable m = true ∧ decode m ≠ .none :=
+  pyLeaves_rt_all calLaw env today
+
+/-- Pass-through of every valid scalar value on S2 = every kind of U but bytes; no spelling condition. -/
+theorem leaf_passthrough_all (env : Env) (today : Int) : ∀ s v, S2 s = true → hasScalar s v = true →
+    (pyLeaves env today).um s v = .ok v :=
+  pyLeaves_pass_all env today
+
+/-- Validity with canonically spelled scalars (`hasType` with `hasScalarC` at the scalar positions). -/
+def hasTypeC (env : Env) : Nat → Ty → Val → Bool := C01.hasTypeL hasScalarC env
+
+/-- **C01 over every scalar kind the executable leaves read back** (all of U's but uuid and bytes),
+    under every composite constructor, class flavour, wrapper and recursion. -/
+theorem roundtrip_all (env : Env) (today : Int) (hE : wfEnv S2r env = true)
+    (hne : enumWF env = true) (n : Nat) (t : Ty) (v : Val)
+    (hwf : wfTy S2r env t = true) (hty : hasTypeC env n t v = true) :
+    ∃ m, mar env (pyLeaves env today) n t v = .ok m ∧ um env (pyLeaves env today) n t m = .ok v :=
+  C01.roundtripG S2r hasScalarC env (pyLeaves env today) hE (leaf_roundtrip_all env today)
+    (pyLeaves_enumRT env today hne) n t v hwf hty
+
+/-- With plain `hasType` (no spelling condition) the statement is false: the unnormalised pair `2/4`
+    comes back as `1/2`. -/
+theorem roundtrip_all_false_without_canon :
+    ¬ (∀ (env : Env) (n : Nat) (t : Ty) (v : Val), wfEnv S2r env = true → wfTy S2r env t = true →
+        hasType env n t v = true →
+        ∃ m, mar env (pyLeaves env) n t v = .ok m ∧ um env (pyLeaves env) n t m = .ok v) := by
+  intro h
+  obtain ⟨m, h1, h2⟩ := h [] 1 (.scalar .fraction) (.frac 2 4) rfl rfl rfl
+  have hm : mar [] (pyLeaves []) 1 (.scalar .fraction) (.frac 2 4) = .ok (.str "2/4".toList) := by rfl
+  rw [hm] at h1
+  cases h1
+  have hu : um [] (pyLeaves []) 1 (.scalar .fraction) (.str "2/4".toList) = .ok (.frac 1 2) := by rfl
+  rw [hu] at h2
+  cases h2
+
+/-- Why uuid is not in S2r: the executable leaves answer `unsupported` on `str(UUID)` (the modelled
+    `strload?` has no rule for it) although the text functions themselves round-trip
+    (`uuid_text_roundtrip`) and `umUuid` reads the text back for any leaf table whose `strload`
+    returns it unchanged (`umUuid_text`). -/
+theorem uuid_out :
+    (pyLeaves [] 0).mar .uuid (.uuid 5) = .ok (.str "00000000-0000-0000-0000-000000000005".toList)
+    ∧ (pyLeaves [] 0).um .uuid (.str "00000000-0000-0000-0000-000000000005".toList) = .error .unsupported :=
+  uuid_text_unsupported
+
+theorem passLaws_S2 (env : Env) (today : Int) :
+    C13.PassLaws S2 hasScalar (fun vs v => Val.exactMem v vs) env (pyLeaves env today) :=
+  { leafPass := leaf_passthrough_all env today
+    litPass := fun vs v hp hm => (C01.literal_pyMem env vs v hp hm).1 }
+
+/-- **C13 over every scalar kind of U but bytes**, every enum, no side condition on the values. -/
+theorem passthrough_all (env : Env) (today : Int) (hE : wfEnv S2 env = true)
+    (n : Nat) (t : Ty) (v : Val)
+    (hwf : wfTy S2 env t = true) (hty : hasType env n t v = true) :
+    um env (pyLeaves env today) n t v = .ok v :=
+  C13.passthroughG S2 hasScalar (fun vs v => Val.exactMem v vs) env (pyLeaves env today) hE
+    (passLaws_S2 env today) n t v hwf hty
+
+/-- Non-vacuity: `@dataclass class Order: id: UUID; price: Decimal; where: PurePath; part: Fraction;
+    tag: Optional[re.Pattern]; by_price: dict[Decimal, list[Fraction]]`. -/
+def exOrdEnv : Env :=
+  [{ flavour := .dataclass,
+     fields := [("id".toList, .scalar .uuid), ("price".toList, .scalar .decimal),
+                ("where".toList, .scalar .path), ("part".toList, .scalar .fraction),
+                ("tag".toList, .union [.scalar .pattern, .none]),
+                ("by_price".toList, .dict (.scalar .decimal) (.coll .list (.scalar .fraction)))],
+     required := ["id".toList, "price".toList, "where".toList, "part".toList] }]
+
+def exOrd : Val :=
+  .inst 0 [("id".toList, .uuid 0x12345678123456781234567812345678), ("price".toList, .dec "-12.50".toList),
+           ("where".toList, .path "a/b.txt".toList), ("part".toList, .frac (-3) 4),
+           ("tag".toList, .pattern "a+".toList),
+           ("by_price".toList, .dict [(.dec "1E+3".toList, .list [.frac 1 2])])]
+
+example : wfEnv S2 exOrdEnv = true := by decide
+example : hasType exOrdEnv 4 (.cls 0) exOrd = true := by decide
+example : um exOrdEnv (pyLeaves exOrdEnv) 4 (.cls 0) exOrd = .ok exOrd :=
+  passthrough_all exOrdEnv 0 (by decide) 4 _ _ (by decide) (by decide)
+
+/-- The same class without the uuid field, canonically spelled values. -/
+def exOrdEnvR : Env :=
+  [{ flavour := .dataclass,
+     fields := [("price".toList, .scalar .decimal), ("where".toList, .scalar .path),
+                ("part".toList, .scalar .fraction), ("tag".toList, .union [.scalar .pattern, .none]),
+                ("by_price".toList, .dict (.scalar .decimal) (.coll .list (.scalar .fraction)))],
+     required := ["price".toList, "where".toList, "part".toList] }]
+
+def exOrdR : Val :=
+  .inst 0 [("price".toList, .dec "-12.50".toList), ("where".toList, .path "etc".toList),
+           ("part".toList, .frac (-3) 4), ("tag".toList, .pattern "ab c".toList),
+           ("by_price".toList, .dict [(.dec "0.001".toList, .list [.frac 1 2, .frac 7 1])])]
+
+example : wfEnv S2r exOrdEnvR = true := by decide
+example : hasTypeC exOrdEnvR 4 (.cls 0) exOrdR = true := by decide
+example : ∃ m, mar exOrdEnvR (pyLeaves exOrdEnvR) 4 (.cls 0) exOrdR = .ok m
+    ∧ um exOrdEnvR (pyLeaves exOrdEnvR) 4 (.cls 0) m = .ok exOrdR :=
+  roundtrip_all exOrdEnvR 0 (by decide) (by decide) 4 _ _ (by decide) (by decide)
+/-- … and an unnormalised fraction is rejected by `hasTypeC`. -/
+example : hasTypeC [] 2 (.scalar .fraction) (.frac 2 4) = false := by decide
 
 end Typelib.C04
